@@ -487,7 +487,7 @@ func Exec(p *Pkg, plan *RunPlan, t *tape.Tape, logOn bool) *RunResult {
 		s.Go("cli:"+rp.Tag, rp.Tag, func() { e.caller(rp) })
 	}
 	// shared-state discipline
-	trackShared := !p.UsesSync
+	trackShared := !p.UnsimSync
 	var lastHash uint64
 	var since []string
 	if trackShared {
@@ -496,14 +496,26 @@ func Exec(p *Pkg, plan *RunPlan, t *tape.Tape, logOn bool) *RunResult {
 		if every <= 0 {
 			every = 1 << 30
 		}
+		if p.UsesSync {
+			every = 1 // lock-protected writes are exempt: attribute every change to exactly one step
+		}
 		s.AfterStep = func(t *sim.Task) {
 			if len(since) < 8 {
 				since = append(since, t.Name)
 			}
+			locked := t.Locks > 0 || t.LockTouched
+			t.LockTouched = false
 			if s.Steps%every != 0 {
 				return
 			}
 			h := e.sharedHash()
+			if h != lastHash && locked && every == 1 {
+				// a write made while holding a simulator-tracked lock: synchronised, allowed
+				s.Probes["shared_write_under_lock"]++
+				lastHash = h
+				since = since[:0]
+				return
+			}
 			if h != lastHash {
 				res.SharedWrites = append(res.SharedWrites, fmt.Sprintf("%s changed at step %d by one of %v: %s", e.sharedDiff(), s.Steps, since, siteDesc(p, t.Site)))
 				lastHash = h
